@@ -24,7 +24,8 @@ namespace nmtools::utils
             // to allow properly compare empty with empty
             auto same_null = has_left == has_right;
             auto equal = same_null;
-            if (same_null == true) {
+            // both empty: equal, and there is nothing to dereference
+            if (has_left && has_right) {
                 equal = apply_isclose(*left,*right);
             }
             return equal;
